@@ -345,6 +345,8 @@ fn compile_constants(
     module: Module,
     module_ns: &namespace::Module,
 ) -> Result<(), CompileError> {
+    #[cfg(fuellabs_sway_verif)]
+    let mut verif_first_err: Option<CompileError> = None;
     for decl_name in module_ns.root_items().get_all_declared_symbols() {
         if let Some(resolved_decl) = module_ns.root_items().symbols.get(decl_name) {
             if let ty::TyDecl::ConstantDecl(ty::ConstantDecl { decl_id, .. }) =
@@ -352,7 +354,7 @@ fn compile_constants(
             {
                 let const_decl = engines.de().get_constant(decl_id);
                 let call_path = const_decl.call_path.clone();
-                compile_const_decl(
+                let res = compile_const_decl(
                     &mut LookupEnv {
                         engines,
                         context,
@@ -364,7 +366,10 @@ fn compile_constants(
                     },
                     &call_path,
                     &Some((*const_decl).clone()),
-                )?;
+                );
+                #[cfg(fuellabs_sway_verif)]
+                let res = verif_const_decl(res, context, &call_path, &mut verif_first_err);
+                res?;
             }
         }
     }
@@ -373,7 +378,62 @@ fn compile_constants(
         compile_constants(engines, context, md_mgr, module, submodule_ns)?;
     }
 
+    #[cfg(fuellabs_sway_verif)]
+    if let Some(err) = verif_first_err {
+        return Err(err);
+    }
+
     Ok(())
+}
+
+/// Verification hook H8. When `SWAY_VERIF_CONST_TRACE` names a file, one JSON line is appended to
+/// it per module-level constant declaration (`name`, `ok`, the evaluated `val`), and a declaration
+/// whose initializer cannot be evaluated no longer stops the loop in `compile_constants`: the
+/// first such error is returned after every declaration of the module was tried.
+#[cfg(fuellabs_sway_verif)]
+fn verif_const_decl(
+    res: Result<Option<Value>, CompileError>,
+    context: &Context,
+    call_path: &crate::language::CallPath,
+    first_err: &mut Option<CompileError>,
+) -> Result<Option<Value>, CompileError> {
+    use std::io::Write;
+    let Some(path) = std::env::var_os("SWAY_VERIF_CONST_TRACE").filter(|p| !p.is_empty()) else {
+        return res;
+    };
+    let val = match &res {
+        Ok(Some(v)) => match v.get_constant(context).map(|c| &c.get_content(context).value) {
+            Some(sway_ir::ConstantValue::Uint(n)) => n.to_string(),
+            Some(sway_ir::ConstantValue::Bool(b)) => b.to_string(),
+            Some(sway_ir::ConstantValue::U256(n)) | Some(sway_ir::ConstantValue::B256(n)) => {
+                format!("0x{n:x}")
+            }
+            Some(other) => sway_utils::verif::esc(&format!("{other:?}")),
+            None => "non-constant".to_string(),
+        },
+        Ok(None) => "none".to_string(),
+        Err(e) => sway_utils::verif::esc(&format!("{e:?}")).chars().take(160).collect(),
+    };
+    if let Ok(mut f) = std::fs::OpenOptions::new()
+        .create(true)
+        .append(true)
+        .open(path)
+    {
+        let _ = writeln!(
+            f,
+            "{{\"ev\":\"ConstDecl\",\"name\":\"{}\",\"ok\":{},\"val\":\"{}\"}}",
+            sway_utils::verif::esc(call_path.suffix.as_str()),
+            res.is_ok(),
+            val
+        );
+    }
+    match res {
+        Err(e) => {
+            first_err.get_or_insert(e);
+            Ok(None)
+        }
+        ok => ok,
+    }
 }
 
 #[allow(clippy::too_many_arguments)]
